@@ -588,13 +588,14 @@ def plan (s : State) : Op → M Plan
     if !witness sg a then .error .err else
     .ok (.done { st := { s with svApplyId := some (s.svApplyId.getD 0 + 1), svApply := alPut s.svApply (s.svApplyId.getD 0) (l, a) },
                  ret := "1", events := ["putStateValidatorApply"] })
-  -- ApproveRegisterStateValidator (a missing request record is dereferenced only once the quorum is reached)
+  -- ApproveRegisterStateValidator
   | .svappr sg id a =>
     if !witness sg a then .error .err else
-    .ok (.approve { method := "approveRegisterStateValidator", input := u64le id, addr := a, retNo := "0",
-                    onFire := fun s1 => match alGet s1.svApply id with
-                      | none => .error .panic
-                      | some (l, _) =>
+    match alGet s.svApply id with
+    | none => .error .err
+    | some (l, _) =>
+      .ok (.approve { method := "approveRegisterStateValidator", input := u64le id, addr := a, retNo := "0",
+                      onFire := fun s1 =>
                         .ok ({ s1 with svs := some (s1.svs.getD [] ++ l.filter (fun x => !(s1.svs.getD []).contains x)),
                                        svApply := alErase s1.svApply id }, "ApproveRegisterStateValidator") })
   -- RemoveStateValidator
@@ -605,10 +606,11 @@ def plan (s : State) : Op → M Plan
   -- ApproveRemoveStateValidator
   | .svapprrm sg id a =>
     if !witness sg a then .error .err else
-    .ok (.approve { method := "approveRemoveStateValidator", input := u64le id, addr := a, retNo := "0",
-                    onFire := fun s1 => match alGet s1.svRemove id with
-                      | none => .error .panic
-                      | some (l, _) =>
+    match alGet s.svRemove id with
+    | none => .error .err
+    | some (l, _) =>
+      .ok (.approve { method := "approveRemoveStateValidator", input := u64le id, addr := a, retNo := "0",
+                      onFire := fun s1 =>
                         .ok ({ s1 with svs := if (l.foldl (fun acc x => acc.erase x) (s1.svs.getD [])).isEmpty then none
                                               else some (l.foldl (fun acc x => acc.erase x) (s1.svs.getD [])),
                                        svRemove := alErase s1.svRemove id }, "ApproveRemoveStateValidator") })
